@@ -406,6 +406,7 @@ type world struct {
 	q       *queue.TaskQueue
 	wmu     sync.Mutex
 	watches map[string]int
+	opened  []watch.Interface
 	barrier int
 }
 
@@ -414,11 +415,7 @@ const queueName = "main"
 
 var nop = log.NewNop()
 
-var prof = map[string]time.Duration{}
-func tick(name string, t0 time.Time) { prof[name] += time.Since(t0) }
-
 func newWorld(c *Case, hookPath, tmpDir string) (*world, error) {
-	defer tick("newWorld", time.Now())
 	w := &world{watches: map[string]int{}}
 	w.ctx, w.cancel = context.WithCancel(context.Background())
 	w.fc = fake.NewFakeCluster(fake.ClusterVersionV121)
@@ -438,6 +435,7 @@ func newWorld(c *Case, hookPath, tmpDir string) (*world, error) {
 		if err == nil {
 			w.wmu.Lock()
 			w.watches[gvr.Resource]++
+			w.opened = append(w.opened, wi)
 			w.wmu.Unlock()
 		}
 		return true, wi, err
@@ -481,12 +479,29 @@ func newWorld(c *Case, hookPath, tmpDir string) (*world, error) {
 	return w, nil
 }
 
+// close stops the monitors and waits until the informers have really stopped watching: the factory store stops an
+// informer asynchronously, and the next case resets the store -- an informer that has not been stopped by then would run
+// (and hold its cluster) for the rest of the process.
 func (w *world) close() {
-	defer tick("close", time.Now())
 	if w.ctrl != nil {
 		w.ctrl.StopMonitors()
 	}
 	w.cancel()
+	deadline := time.Now().Add(2 * time.Second)
+	for time.Now().Before(deadline) {
+		open := 0
+		w.wmu.Lock()
+		for _, wi := range w.opened {
+			if f, ok := wi.(*watch.RaceFreeFakeWatcher); ok && !f.IsStopped() {
+				open++
+			}
+		}
+		w.wmu.Unlock()
+		if open == 0 {
+			return
+		}
+		time.Sleep(20 * time.Microsecond)
+	}
 }
 
 func (w *world) res(role string) dynamic.ResourceInterface {
@@ -530,7 +545,6 @@ func (w *world) next(d time.Duration) (kemtypes.KubeEvent, bool) {
 // delivered before the marker's own events: informer notifications are FIFO, so afterwards nothing caused by earlier
 // changes of that kind is still on its way and the informer cache is current.
 func (w *world) flush(role string) ([]kemtypes.KubeEvent, error) {
-	defer tick("flush", time.Now())
 	w.barrier++
 	name := fmt.Sprintf("zz-barrier-%d", w.barrier)
 	marker := &unstructured.Unstructured{Object: map[string]interface{}{"apiVersion": apiVersion, "kind": kindOf[role],
@@ -568,7 +582,6 @@ func (w *world) flush(role string) ([]kemtypes.KubeEvent, error) {
 }
 
 func (w *world) waitWatches(roles []string) error {
-	defer tick("waitWatches", time.Now())
 	deadline := time.Now().Add(10 * time.Second)
 	for {
 		ok := true
@@ -595,7 +608,6 @@ func (e steerError) Error() string { return e.why }
 
 // run executes the steps of the case and returns the JSON the hook gets.
 func (w *world) run(c *Case) (data []byte, viaFile bool, err error) {
-	defer tick("run", time.Now())
 	roles := []string{"main"}
 	if c.Cfg.Aux.On != nil && *c.Cfg.Aux.On {
 		roles = append(roles, "aux")
@@ -634,7 +646,6 @@ func (w *world) run(c *Case) (data []byte, viaFile bool, err error) {
 			w.ctrl.EnableScheduleBindings()
 			w.ctrl.EnableConversionBindings()
 			w.ctrl.EnableAdmissionBindings()
-			t2 := time.Now()
 			err := w.ctrl.HandleEnableKubernetesBindings(func(info controller.BindingExecutionInfo) {
 				for role := range sel {
 					if info.Binding == c.Names[role] {
@@ -645,7 +656,6 @@ func (w *world) run(c *Case) (data []byte, viaFile bool, err error) {
 			if err != nil {
 				return nil, false, err
 			}
-			tick("enable", t2)
 			w.ctrl.UnlockKubernetesEvents()
 			if err := w.waitWatches(roles); err != nil {
 				return nil, false, err
@@ -731,10 +741,7 @@ func (w *world) run(c *Case) (data []byte, viaFile bool, err error) {
 		out := filepath.Join(w.h.TmpDir, fmt.Sprintf("seen-%d.json", c.Id))
 		os.Setenv("VERIF_BCTX_OUT", out)
 		defer os.Remove(out)
-		t3 := time.Now()
-		_, err := w.h.Run(lastType, list, map[string]string{})
-		tick("hookRun", t3)
-		if err != nil {
+		if _, err := w.h.Run(lastType, list, map[string]string{}); err != nil {
 			return nil, true, fmt.Errorf("hook run failed: %v", err)
 		}
 		data, err := os.ReadFile(out)
@@ -950,7 +957,6 @@ func (c *Case) roleByName(name string) string {
 }
 
 func (c *Case) check(data []byte) (*verdict, string) {
-	defer tick("check", time.Now())
 	v := &verdict{}
 	var arr []map[string]interface{}
 	dec := json.NewDecoder(bytes.NewReader(data))
@@ -1185,6 +1191,9 @@ func main() {
 				switch {
 				case strings.Contains(why, "no progress"):
 					r.Sig = "INFRA/hang"
+				case !strings.Contains(why, "panic:") && !strings.Contains(why, "fatal error:") && !strings.Contains(why, "goroutine "):
+					// killed from outside (e.g. by the kernel's OOM killer): nothing the code under test did
+					r.Sig = "INFRA/child-killed"
 				case strings.Contains(why, "BindingContext.MapV0"):
 					r.Sig = "C09/crash/MapV0"
 				case strings.Contains(why, "BindingContext.MapV1"), strings.Contains(why, "ObjectAndFilterResult"):
@@ -1216,5 +1225,4 @@ func main() {
 		b, _ := json.Marshal(r)
 		of.Write(append(b, '\n'))
 	}
-	fmt.Fprintln(os.Stderr, prof)
 }
